@@ -292,3 +292,16 @@ def family_c06(prop, fail, unit_res, repo, verif, build):
 
 
 FAMILIES["C06"] = family_c06
+
+
+def family_c10(prop, fail, unit_res, repo, verif, build):
+    """C10: histories with injected flush failures (core scenarios), then the system-call trace family (what is synced before an operation returns)."""
+    r = family_core(prop, fail, unit_res, repo, verif, build)
+    if r.get("counterexample"):
+        return r
+    r2 = _core_replay("c10_trace_family", lambda scratch: [scratch], repo, verif, build)
+    r2["counterexample_search"] = (r.get("counterexample_search") or "") + "; " + (r2.get("counterexample_search") or "")
+    return r2
+
+
+FAMILIES["C10"] = family_c10
